@@ -96,6 +96,11 @@ func VerifyFunc(p *Program, fc *FuncContract) (g *Gen, err error) {
 	if k > 0 {
 		g.retGroups = groups
 	}
+	for _, sc := range fc.Sites {
+		if g.siteHits[sc.Label] == 0 {
+			return nil, fmt.Errorf("contract-stale: %s.%s: site %s (%s) matches no call", fc.Pkg, fc.Name, sc.Label, sc.Pattern)
+		}
+	}
 	if f.exitReach != "false" {
 		g.addOblig(&Oblig{Name: f.obName("cover", nil, 0) + "exit-reachable", Kind: "cover", Goal: not(f.exitReach), Cover: true})
 	}
